@@ -1381,13 +1381,23 @@ BITS_APPEND = z3.Function('append_bits', I, S, I, I)     # (bits so far, octets 
 NO_BITS = IntVal(0)
 
 
+BITS_NONZERO = z3.Function('some_bit_set', I, BoolSort())
+
+
+def _bits_obj(acc):
+    o = Obj('SizedInteger', {'acc': acc}, name='bits')
+    # a SizedInteger is an int: bits that are all zero make it falsy, however many they are
+    o.methods['__bool__'] = lambda ex, self: BITS_NONZERO(toint(self.fields['acc']))
+    return o
+
+
 def _bits_from_octets(ex, self, value, internalFormat=False, prepend=None, padding=0):
     """univ.BitString.fromOctetString (assumed): the bits of `value` minus `padding` unused ones, appended to `prepend`"""
     acc = NO_BITS if prepend is None else prepend.fields['acc']
     z = value.z if isinstance(value, SeqV) else mk_seq(list(value))
     if z3.is_app(z) and z.decl().kind() == z3.Z3_OP_SEQ_EMPTY and prepend is None:
-        return Obj('SizedInteger', {'acc': NO_BITS}, name='bits')
-    return Obj('SizedInteger', {'acc': BITS_APPEND(acc, z, toint(padding))}, name='bits')
+        return _bits_obj(NO_BITS)
+    return _bits_obj(BITS_APPEND(acc, z, toint(padding)))
 
 
 def bit_fragment_model(ex, substrate, asn1Spec=None, tagSet=None, length=None, state=None, **kw):
@@ -1440,7 +1450,7 @@ class PBits(PObjOneOf):
         PObjOneOf.__init__(self, classes=['SizedInteger'])
 
     def make(self, ex, name):
-        return Obj('SizedInteger', {'acc': z3.Int(name + '.acc')}, name='bits')
+        return _bits_obj(z3.Int(name + '.acc'))
 
     def admits(self, v):
         return isinstance(v, Obj) and v.cls == 'SizedInteger'
